@@ -69,6 +69,14 @@ void harness_rule(void)
 	cJSON_AddItemToObject(rule, "startsWith", str2(c, 'B')); cJSON_AddItemToObject(rule, "caseInsensitive", cJSON_CreateTrue()); expect_match = (lower((unsigned char)c) == 'a');
 #elif RULE == 15
 	cJSON_AddItemToObject(rule, "endsWith", str2(c, 'B')); cJSON_AddItemToObject(rule, "caseInsensitive", cJSON_CreateTrue()); expect_match = (lower((unsigned char)c) == 'a');
+#elif RULE == 20
+	/* exactly the configured maximum of matchers (3 in the verification configuration): accepted */
+	cJSON_AddItemToObject(rule, "equals", str2(c, 'b')); cJSON_AddItemToObject(rule, "startsWith", str2('a', 'b')); cJSON_AddItemToObject(rule, "endsWith", str2('a', 'b'));
+	expect_match = (c == 'a');
+#elif RULE == 21
+	/* the maximum of matchers plus the option key (which is not a matcher): accepted */
+	cJSON_AddItemToObject(rule, "equals", str2(c, 'B')); cJSON_AddItemToObject(rule, "startsWith", str2('A', 'b')); cJSON_AddItemToObject(rule, "caseInsensitive", cJSON_CreateTrue());
+	cJSON_AddItemToObject(rule, "endsWith", str2('a', 'B')); expect_match = (lower((unsigned char)c) == 'a');
 #elif RULE == 16
 	/* a key that merely starts with the option's name is an unknown matcher, not the option */
 	cJSON_AddItemToObject(rule, "caseInsensitiveX", str2(c, 'b')); expect_refused = 1;
